@@ -32,12 +32,12 @@ def modAxis (g : ℕ) (a : Axis) : RAxis :=
   { cm := ((a.ix - 1) % (g : ℤ)).toNat, c0 := (a.ix % (g : ℤ)).toNat,
     cp := ((a.ix + 1) % (g : ℤ)).toNat, wm := a.wm, w0 := a.w0, wp := a.wp }
 
-theorem rhe_ge_of_domain {g : ℕ} {p : ℚ} (hp : -(g : ℚ) + 3/2 ≤ p) : -(g : ℤ) + 1 ≤ rhe p := by
-  have := rhe_lower p
-  have h : ((-(g : ℤ) + 1 : ℤ) : ℚ) ≤ ((rhe p : ℤ) : ℚ) := by push_cast; linarith
-  exact_mod_cast h
+theorem rhe_ge_of_domain {g : ℕ} {p : ℚ} (hp : -(g : ℚ) + 1 ≤ p) : -(g : ℤ) + 1 ≤ rhe p := by
+  have h : ((-(g : ℤ) + 1 : ℤ) : ℚ) ≤ p := by push_cast; linarith
+  have := rhe_mono h
+  rwa [rhe_int] at this
 
-theorem resolve_in_domain {g : ℕ} (hg : 1 ≤ g) (k : Kind) {p : ℚ} (hp : -(g : ℚ) + 3/2 ≤ p) :
+theorem resolve_in_domain {g : ℕ} (hg : 1 ≤ g) (k : Kind) {p : ℚ} (hp : -(g : ℚ) + 1 ≤ p) :
     resolve g (axisOf k p) = .ok (modAxis g (axisOf k p)) :=
   resolve_of_ge hg _ (by rw [axisOf_ix]; exact rhe_ge_of_domain hp)
 
@@ -228,12 +228,12 @@ theorem weightAt_imageSum {g : ℕ} (hg : 1 ≤ g) (W : ℚ → ℚ) (s : ℚ) (
     sum_image_eq hg hc _ _ K (key _ _ (by exact_mod_cast hp'))]
   rfl
 
-theorem tsc_weightAt_eq {g : ℕ} (hg : 1 ≤ g) {p : ℚ} (_hp : -(g : ℚ) + 3/2 ≤ p) {c : ℕ} (hc : c < g)
+theorem tsc_weightAt_eq {g : ℕ} (hg : 1 ≤ g) {p : ℚ} (_hp : -(g : ℚ) + 1 ≤ p) {c : ℕ} (hc : c < g)
     (K : Finset ℤ) (hK : Covers (3/2) g p c K) :
     (modAxis g (axisOf .tsc p)).weightAt c = imageSum Wtsc g p c K :=
   weightAt_imageSum hg Wtsc (3/2) (tscAxis p) p (tsc_unwrapped p) (fun _ h => Wtsc_far h) hc K hK
 
-theorem cic_weightAt_eq {g : ℕ} (hg : 1 ≤ g) {p : ℚ} (_hp : -(g : ℚ) + 3/2 ≤ p) {c : ℕ} (hc : c < g)
+theorem cic_weightAt_eq {g : ℕ} (hg : 1 ≤ g) {p : ℚ} (_hp : -(g : ℚ) + 1 ≤ p) {c : ℕ} (hc : c < g)
     (K : Finset ℤ) (hK : Covers 1 g p c K) :
     (modAxis g (axisOf .cic p)).weightAt c = imageSum Wcic g p c K :=
   weightAt_imageSum hg Wcic 1 (cicAxis p) p (cic_unwrapped p) (fun _ h => Wcic_far h) hc K hK
